@@ -88,6 +88,9 @@ MEDDLY::binary_operation::~binary_operation()
 void MEDDLY::binary_operation::compute(const dd_edge &ar1,
         const dd_edge &ar2, dd_edge &res)
 {
+    if (!res.isAttachedTo(resF)) {
+        throw error(error::FOREST_MISMATCH, __FILE__, __LINE__);
+    }
     if (!checkForestCompatibility()) {
         throw error(error::INVALID_OPERATION, __FILE__, __LINE__);
     }
@@ -120,6 +123,9 @@ void MEDDLY::binary_operation::compute(const dd_edge &ar1,
 void MEDDLY::binary_operation::computeTemp(const dd_edge &ar1,
         const dd_edge &ar2, dd_edge &res)
 {
+    if (!res.isAttachedTo(resF)) {
+        throw error(error::FOREST_MISMATCH, __FILE__, __LINE__);
+    }
     if (!checkForestCompatibility()) {
         throw error(error::INVALID_OPERATION, __FILE__, __LINE__);
     }
